@@ -84,6 +84,16 @@ func init() {
 	addRules("C02", "R-EXPIRY")
 	addRules("C03", "R-EXPIRY")
 	addRules("C10", "R-SYNCIMPL")
+	addRules("C15", "R-COMMITSET-MONO")
+	addRules("C16", "R-COMMITSET-MONO")
+	addRules("C17", "R-COMMITSET-MONO", "R-MERGE-ORDER")
+	addRules("C12", "R-MERGE-COMMITTED")
+	addRules("C18", "R-RECOVER-ORDER", "R-ORDER")
+	addRules("C21", "R-READAT-SPEC")
+	addRules("C20", "R-CONSTINDEX", "R-SLICE-LOW")
+	addRules("C05", "R-SLICE-LOW", "R-NEGATE")
+	addRules("C20", "R-NEGATE")
+	addRules("C16", "R-MERGE-PRESERVE")
 	addRules("C08", "R-HINTKEY", "R-INSERT-TOTAL")
 	addRules("C09", "R-INSERT-TOTAL")
 	addRules("C02", "R-HINTKEY")
